@@ -33,9 +33,32 @@ type c18Http struct {
 	ct     string
 	body   string
 	readOK bool
+	// what the client's response-body transformer does with this body: "-" none installed,
+	// "k" accepts (strips the '#' the script peer prepends), "n<i>" fails with sentinel i and a
+	// nil body, "b<i>" fails with sentinel i and returns the raw body
+	xf string
 	// derived facts handed to the model
 	custom        string // verdict of the custom checker ("-" = none installed)
 	jsonOK, xmlOK bool
+}
+
+func (h *c18Http) xfEnc() string {
+	if h.xf == "" || h.xf == "-" {
+		return "-"
+	}
+	if h.xf == "k" {
+		return "k"
+	}
+	return h.xf[:1] + "s" + h.xf[1:]
+}
+
+// wire is the body the peer sends: with a transformer installed it is marked, and only the
+// transformer's output is what the unmarshallers accept.
+func (h *c18Http) wire() string {
+	if h.xf == "" || h.xf == "-" {
+		return h.body
+	}
+	return "#" + h.body
 }
 
 type c18TOut struct {
@@ -65,6 +88,16 @@ type c18Scenario struct {
 	checker                                              c18Checker
 	verb                                                 int
 	e2e                                                  string // base URL of the loopback origin (\"\" = scripted http.RoundTripper)
+	// how the client that runs the call is obtained (not part of the model line: by
+	// Req.Props.C18Clone the call of a client runs that client's own settings whatever its lineage):
+	// 0 = configured directly; 1 = a prefix of the configuration steps on a parent, Clone, the rest on
+	// the copy, decoy stages/settings on the parent afterwards, call on the copy; 2 = the mirror image
+	// (decoys on a copy taken midway, call on the original); 3 = two generations of 1
+	path  int
+	split int // selects the clone point(s) among the configuration steps
+	// a response-body transformer is installed on the client (every scripted response then says what
+	// it does with that body: c18Http.xf)
+	xform bool
 }
 
 var c18ErrGetBody = errors.New("c18 GetBody failure")
@@ -167,7 +200,7 @@ func (t c18TOut) enc() string {
 		return "f" + c18ErrArg(t.fail)
 	}
 	h := t.h
-	return fmt.Sprintf("r%d:%s:%s:%s:%s:%s", h.status, h.custom, c18b(h.readOK), c18b(h.jsonOK), c18b(h.xmlOK), verifh.Hex(h.ct))
+	return fmt.Sprintf("r%d:%s:%s:%s:%s:%s:%s", h.status, h.custom, c18b(h.readOK), c18b(h.jsonOK), c18b(h.xmlOK), verifh.Hex(h.ct), h.xfEnc())
 }
 
 func (a c18Act) enc() string {
@@ -263,10 +296,11 @@ type c18Obs struct {
 	okT          c18T
 	erT          c18E
 	unmCalls     []c18UnmCall
-	builtBefore  bool // a request middleware saw RawRequest already built in the first attempt
-	builtinFirst bool // a user request middleware saw Request.URL already parsed in the first attempt
-	noBuiltin    bool // a later stage ran although Request.URL was never parsed
-	nilRespSeen  bool // a request-level response middleware was handed a nil *Response
+	builtBefore  bool     // a request middleware saw RawRequest already built in the first attempt
+	builtinFirst bool     // a user request middleware saw Request.URL already parsed in the first attempt
+	noBuiltin    bool     // a later stage ran although Request.URL was never parsed
+	nilRespSeen  bool     // a request-level response middleware was handed a nil *Response
+	foreign      []string // stages / settings of ANOTHER client (parent or copy) that took part in the call
 }
 
 type c18UnmCall struct {
@@ -299,8 +333,11 @@ var c18Verbs = []string{"Get", "Post", "Put", "Patch", "Delete", "Options", "Hea
 
 func c18Run(sc *c18Scenario) *c18Obs {
 	o := &c18Obs{facts: map[string]*c18Http{}}
-	c := C()
+	var c *Client // the client that runs the call (obtained below, directly or through Clone)
 	var req *Request
+	// the client-level configuration as a list of steps, so that Clone can be interposed anywhere
+	var steps []func(c *Client)
+	add := func(f func(c *Client)) { steps = append(steps, f) }
 	att := func() int {
 		if req == nil { // package-level entry point: the request is created inside the call (no retry there)
 			return 0
@@ -346,35 +383,61 @@ func c18Run(sc *c18Scenario) *c18Obs {
 	}
 
 	if sc.checker.fn != nil {
-		c.SetResultStateCheckFunc(sc.checker.fn)
+		add(func(c *Client) { c.SetResultStateCheckFunc(sc.checker.fn) })
 	}
 	if sc.cE {
-		c.SetCommonErrorResult(&c18C{})
+		add(func(c *Client) { c.SetCommonErrorResult(&c18C{}) })
 	}
 	reqLevelNoAutoRead := !sc.autoRead && sc.verb%2 == 1 // auto-read is switched off at either level
 	if !sc.autoRead && !reqLevelNoAutoRead {
-		c.DisableAutoReadResponse()
+		add(func(c *Client) { c.DisableAutoReadResponse() })
 	}
 	if sc.hook {
-		c.OnError(func(*Client, *Request, *Response, error) { o.hooks++ })
+		add(func(c *Client) { c.OnError(func(*Client, *Request, *Response, error) { o.hooks++ }) })
 	}
-	c.SetJsonUnmarshal(func(b []byte, v interface{}) error {
-		ev("j")
-		o.unmCalls = append(o.unmCalls, c18UnmCall{false, string(b), v})
-		if err := json.Unmarshal(b, v); err != nil {
-			raise("unm")
-			return &c18UnmErr{err}
-		}
-		return nil
+	if sc.xform {
+		// the response-body transformer: its outcome is scripted per exchange (looked up by the
+		// X-Tag of the response at hand)
+		add(func(c *Client) {
+			c.SetResponseBodyTransformer(func(raw []byte, _ *Request, resp *Response) ([]byte, error) {
+				var h *c18Http
+				if resp != nil && resp.Response != nil {
+					h = o.facts[resp.Header.Get("X-Tag")]
+				}
+				out := append([]byte{}, strings.TrimPrefix(string(raw), "#")...)
+				if h == nil || len(h.xf) < 2 {
+					return out, nil
+				}
+				i, _ := strconv.Atoi(h.xf[1:])
+				raise(c18ErrArg(i))
+				if h.xf[0] == 'n' {
+					return nil, c18Sentinels[i]
+				}
+				return raw, c18Sentinels[i]
+			})
+		})
+	}
+	add(func(c *Client) {
+		c.SetJsonUnmarshal(func(b []byte, v interface{}) error {
+			ev("j")
+			o.unmCalls = append(o.unmCalls, c18UnmCall{false, string(b), v})
+			if err := json.Unmarshal(b, v); err != nil {
+				raise("unm")
+				return &c18UnmErr{err}
+			}
+			return nil
+		})
 	})
-	c.SetXmlUnmarshal(func(b []byte, v interface{}) error {
-		ev("x")
-		o.unmCalls = append(o.unmCalls, c18UnmCall{true, string(b), v})
-		if err := xml.Unmarshal(b, v); err != nil {
-			raise("unm")
-			return &c18UnmErr{err}
-		}
-		return nil
+	add(func(c *Client) {
+		c.SetXmlUnmarshal(func(b []byte, v interface{}) error {
+			ev("x")
+			o.unmCalls = append(o.unmCalls, c18UnmCall{true, string(b), v})
+			if err := xml.Unmarshal(b, v); err != nil {
+				raise("unm")
+				return &c18UnmErr{err}
+			}
+			return nil
+		})
 	})
 	// which digest script applies in attempt a (first digest stage)
 	digestAt := func(a int) *c18Act {
@@ -390,9 +453,9 @@ func c18Run(sc *c18Scenario) *c18Obs {
 		o.facts[strconv.Itoa(tag)] = h
 		var body io.ReadCloser
 		if h.readOK {
-			body = io.NopCloser(strings.NewReader(h.body))
+			body = io.NopCloser(strings.NewReader(h.wire()))
 		} else {
-			body = &c18FailReader{r: strings.NewReader(h.body), err: c18ErrRead, onFail: func() { raise("read") }}
+			body = &c18FailReader{r: strings.NewReader(h.wire()), err: c18ErrRead, onFail: func() { raise("read") }}
 		}
 		return &http.Response{StatusCode: h.status, Status: strconv.Itoa(h.status) + " X", Proto: "HTTP/1.1", ProtoMajor: 1, ProtoMinor: 1,
 			Header: c18HTTPHeader(h, tag, chal), Body: body, ContentLength: -1, Request: r}
@@ -426,11 +489,17 @@ func c18Run(sc *c18Scenario) *c18Obs {
 				hd["Content-Type"] = nil // suppress the server's content sniffing
 			}
 			w.WriteHeader(h.status)
-			io.WriteString(w, h.body)
+			io.WriteString(w, h.wire())
 		}))
 		defer c18E2EHandlers.Delete(id)
 		sc.e2e = strings.TrimSuffix(sc.e2e, "/") + "/c/" + id
-	} else {
+	}
+	// the scripted transport is plugged into the client that runs the call, once it exists
+	// (Clone gives the copy a transport of its own)
+	setupTransport := func() {
+		if sc.e2e != "" {
+			return
+		}
 		// first exchange of every attempt: the http.Client's transport
 		c.GetClient().Transport = rtFuncC18(func(r *http.Request) (*http.Response, error) {
 			late()
@@ -468,20 +537,22 @@ func c18Run(sc *c18Scenario) *c18Obs {
 	// user request middleware
 	for i := range sc.udReq {
 		i := i
-		c.OnBeforeRequest(func(_ *Client, r *Request) error {
-			ev("u" + strconv.Itoa(i))
-			if r.RetryAttempt == 0 && r.RawRequest != nil {
-				o.builtBefore = true
-			}
-			if r.RetryAttempt == 0 && r.URL != nil {
-				o.builtinFirst = true
-			}
-			act := c18At(sc.udReq[i], att(), c18Act{kind: "o"})
-			if act.kind == "f" {
-				raise(c18ErrArg(act.e))
-				return c18Sentinels[act.e]
-			}
-			return nil
+		add(func(c *Client) {
+			c.OnBeforeRequest(func(_ *Client, r *Request) error {
+				ev("u" + strconv.Itoa(i))
+				if r.RetryAttempt == 0 && r.RawRequest != nil {
+					o.builtBefore = true
+				}
+				if r.RetryAttempt == 0 && r.URL != nil {
+					o.builtinFirst = true
+				}
+				act := c18At(sc.udReq[i], att(), c18Act{kind: "o"})
+				if act.kind == "f" {
+					raise(c18ErrArg(act.e))
+					return c18Sentinels[act.e]
+				}
+				return nil
+			})
 		})
 	}
 	// hidden last user middleware: makes the built-in block fail on scripted attempts (bad URL)
@@ -489,15 +560,17 @@ func c18Run(sc *c18Scenario) *c18Obs {
 	if sc.e2e != "" {
 		goodURL = sc.e2e
 	}
-	c.OnBeforeRequest(func(_ *Client, r *Request) error {
-		touch()
-		if c18At(sc.builtin, att(), false) {
-			raise("builtin")
-			r.RawURL = "http://[::1"
-		} else {
-			r.RawURL = goodURL
-		}
-		return nil
+	add(func(c *Client) {
+		c.OnBeforeRequest(func(_ *Client, r *Request) error {
+			touch()
+			if c18At(sc.builtin, att(), false) {
+				raise("builtin")
+				r.RawURL = "http://[::1"
+			} else {
+				r.RawURL = goodURL
+			}
+			return nil
+		})
 	})
 	// wrapping round-trippers
 	fresh := map[*Response]bool{}
@@ -548,40 +621,48 @@ func c18Run(sc *c18Scenario) *c18Obs {
 	switch sc.verb % 3 {
 	case 0:
 		for _, w := range wfuncs {
-			c.WrapRoundTripFunc(w)
+			w := w
+			add(func(c *Client) { c.WrapRoundTripFunc(w) })
 		}
 	case 1:
-		c.WrapRoundTripFunc(wfuncs...)
+		add(func(c *Client) { c.WrapRoundTripFunc(wfuncs...) })
 	default:
 		var ws []RoundTripWrapper
 		for _, w := range wfuncs {
 			w := w
 			ws = append(ws, func(rt RoundTripper) RoundTripper { return w(rt) })
 		}
+		// (capacity clipped: WrapRoundTrip keeps the caller's variadic slice and appends to it later, so
+		// a sub-slice with spare capacity would let a later registration overwrite ws[k] — an aliasing
+		// corner of the library outside C18, see notes/C18.md)
 		k := len(ws) / 2
-		c.WrapRoundTrip(ws[:k]...)
-		c.WrapRoundTrip(ws[k:]...)
+		add(func(c *Client) { c.WrapRoundTrip(ws[:k:k]...) })
+		add(func(c *Client) { c.WrapRoundTrip(ws[k:]...) })
 	}
 	// user client-level response middleware
 	for i := range sc.clientResp {
 		i := i
-		c.OnAfterResponse(func(_ *Client, resp *Response) error {
-			ev("c" + strconv.Itoa(i))
-			act := c18At(sc.clientResp[i], att(), c18Act{kind: "n"})
-			switch act.kind {
-			case "r":
-				raise(c18ErrArg(act.e))
-				return c18Sentinels[act.e]
-			case "s":
-				raise(c18ErrArg(act.e))
-				resp.Err = c18Sentinels[act.e]
-			case "c":
-				resp.Err = nil
-			}
-			return nil
+		add(func(c *Client) {
+			c.OnAfterResponse(func(_ *Client, resp *Response) error {
+				ev("c" + strconv.Itoa(i))
+				act := c18At(sc.clientResp[i], att(), c18Act{kind: "n"})
+				switch act.kind {
+				case "r":
+					raise(c18ErrArg(act.e))
+					return c18Sentinels[act.e]
+				case "s":
+					raise(c18ErrArg(act.e))
+					resp.Err = c18Sentinels[act.e]
+				case "c":
+					resp.Err = nil
+				}
+				return nil
+			})
 		})
 	}
 
+	c = c18Build(sc, steps, o)
+	setupTransport()
 	req = c.R()
 	if reqLevelNoAutoRead {
 		req.DisableAutoReadResponse()
@@ -770,6 +851,10 @@ func c18ShowLogs(logs [][]string) string {
 // answer renders the observation in the model's canonical form.
 func (o *c18Obs) answer(sc *c18Scenario) string {
 	log := c18ShowLogs(o.logs)
+	if len(o.foreign) > 0 {
+		// never part of a model answer: the call of a client involves that client's stages only
+		log += " foreign=" + strings.Join(o.foreign, ".")
+	}
 	if o.crashed != "" {
 		return "crash log=" + log
 	}
@@ -826,6 +911,9 @@ func (o *c18Obs) oracle(sc *c18Scenario) string {
 	if o.crashed != "" {
 		return "panic: " + o.crashed
 	}
+	if len(o.foreign) > 0 {
+		return "stages/settings of another client (its parent or its copy) took part in the call: " + strings.Join(o.foreign, ".")
+	}
 	verbStyle := sc.entry != 'd'
 	if o.mustPanicked {
 		if o.mustErr == nil {
@@ -879,7 +967,7 @@ func (o *c18Obs) oracle(sc *c18Scenario) string {
 			return nil, false
 		}
 		v, ok := c18Decode(f.body, c18CtClass(f.ct) == "xml", proto)
-		return v, ok && f.readOK
+		return v, ok && f.readOK && len(f.xf) < 2 // reads, and the body transformer (if any) accepts it
 	}
 	content := f != nil && f.status != 204
 	if res {
@@ -1157,6 +1245,46 @@ func c18GenHTTP(r *rand.Rand, ck c18Checker, wantGood int) *c18Http {
 
 func c18GenErr(r *rand.Rand) int { return 1 + r.Intn(8) }
 
+// c18Finish draws the dimensions every lane shares, after the stack itself has been generated:
+// a response-body transformer (1 in pXform scenarios; then every scripted response says whether
+// the transformer accepts its body, fails returning nil, or fails returning the raw body) and the
+// lineage of the client that runs the call (1 in pClone scenarios goes through Clone).
+func c18Finish(r *rand.Rand, sc *c18Scenario, pXform, pClone int) *c18Scenario {
+	if r.Intn(pXform) == 0 {
+		sc.xform = true
+	}
+	each := func(h *c18Http) {
+		if h == nil {
+			return
+		}
+		h.xf = "-"
+		if sc.xform {
+			switch x := r.Intn(10); {
+			case x < 5:
+				h.xf = "k"
+			case x < 8:
+				h.xf = "n" + strconv.Itoa(c18GenErr(r))
+			default:
+				h.xf = "b" + strconv.Itoa(c18GenErr(r))
+			}
+		}
+	}
+	for _, t := range sc.transport {
+		each(t.h)
+	}
+	for _, st := range sc.reqResp {
+		for _, a := range st {
+			if a.kind == "d" {
+				each(a.re.h)
+			}
+		}
+	}
+	if r.Intn(pClone) == 0 {
+		sc.path, sc.split = 1+r.Intn(3), r.Intn(1<<20)
+	}
+	return sc
+}
+
 func c18GenStack(r *rand.Rand) *c18Scenario {
 	sc := &c18Scenario{entry: "dsvm"[r.Intn(4)], sT: r.Intn(3) != 0, eT: r.Intn(2) == 0, cE: r.Intn(2) == 0,
 		autoRead: r.Intn(5) != 0, hook: r.Intn(4) != 0, verb: r.Intn(7), checker: c18Checkers[0]}
@@ -1271,7 +1399,7 @@ func c18GenStack(r *rand.Rand) *c18Scenario {
 		}
 		sc.reqResp = append(sc.reqResp, st)
 	}
-	return sc
+	return c18Finish(r, sc, 5, 4)
 }
 
 // c18GenStale: directed pattern "an attempt that binds a result, a retry, then a request
@@ -1308,11 +1436,11 @@ func c18GenStale(r *rand.Rand) *c18Scenario {
 			sc.clientResp[0][a] = c18Act{kind: "n"}
 		}
 	}
-	return sc
+	return c18Finish(r, sc, 8, 4)
 }
 
 func c18Human(sc *c18Scenario, impl string) string {
-	return sc.line("111")[8:] + " checker=" + sc.checker.name + " => " + impl
+	return sc.line("111")[8:] + " checker=" + sc.checker.name + fmt.Sprintf(" clonepath=%d/%d", sc.path, sc.split) + " => " + impl
 }
 
 // c18ModelBuckets: histogram buckets derived from the MODEL's answer (what the repaired code
@@ -1326,6 +1454,19 @@ func c18ModelBuckets(hist *c18Hist, sc *c18Scenario, ans string) {
 		}
 	}
 	hist.Count("entry=" + string(sc.entry))
+	hist.Count("clonepath=" + strconv.Itoa(sc.path))
+	if sc.xform {
+		hist.Count("xform")
+		for _, t := range sc.transport {
+			if t.h != nil && len(t.h.xf) > 1 {
+				hist.Count("xform-fails")
+				if strings.HasPrefix(f["err"], "s") || strings.HasPrefix(ans, "must err=s") {
+					hist.Count("xform-fails+err")
+				}
+				break
+			}
+		}
+	}
 	if f["log"] == "-" {
 		hist.Count("attempts=0")
 	} else {
@@ -1469,7 +1610,7 @@ func TestVerif_C18_call(t *testing.T) {
 			}
 			c18Facts(h, sc.checker)
 			sc.transport = []c18TOut{{fail: -1, h: h}}
-			scs = append(scs, sc)
+			scs = append(scs, c18Finish(r, sc, 4, 4))
 		}
 	}
 	c18RunLane(t, s, hist, scs)
@@ -1579,7 +1720,7 @@ func TestVerif_C18_e2e(t *testing.T) {
 			}
 			sc.reqResp = append(sc.reqResp, st)
 		}
-		scs = append(scs, sc)
+		scs = append(scs, c18Finish(r, sc, 4, 3))
 	}
 	c18RunLane(t, s, hist, scs)
 	s.Finish()
